@@ -542,7 +542,11 @@ def h_getitem_next_at(cls, dims):
     out = nc.m.call('_ZNK7awkward%s12getitem_nextERKNS_7SliceAtERKNS_5SliceERKNS_7IndexOfIlEE' % short, [Ptr('ret', 0), this, sl, tail, adv])
     regs = [z3.If(at < 0, at + L, at) for L in lens]
     inr = z3.And([z3.And(r >= 0, r < L) for r, L in zip(regs, lens)] + [z3.BoolVal(True)])
-    obls = [('raises exactly when the index is out of range for some list', z3.simplify(out.raised) != z3.Not(inr))]
+    if cls == 'RegularArray' and not lens:
+        # a regular dimension has its size even when there are no rows: NumPy checks the index against the size (a[:, 4] on shape (0, 2) raises)
+        r0 = z3.If(at < 0, at + dims[0], at)
+        inr = z3.And(r0 >= 0, r0 < dims[0])
+    obls = [('raises exactly when the index is out of range for some list (for a regular dimension: for its size)', z3.simplify(out.raised) != z3.Not(inr))]
     okp = z3.And(inr, z3.Not(out.raised))
     rp = nc.m.cell('ret', 0)
     if rp is not None and any(q.obj is not None for g, q in nodeh.ptr_cases(rp)):
@@ -563,6 +567,8 @@ def h_getitem_next_at(cls, dims):
             exp = [lst[A] for lst in inp]
         except IndexError:
             exp = None
+        if cls == 'RegularArray' and not inp and not (-dims[0] <= A < dims[0]):
+            exp = None          # NumPy: the index is checked against the size of the dimension even without rows
         kind, got = fullnative.akrun(prog)
         payload = dict(program=prog, native=[kind, got], expected=exp)
         if exp is None:
@@ -700,6 +706,9 @@ def h_getitem_next_array(cls, dims, nidx):
     out = nc.m.call('_ZNK7awkward%s12getitem_nextERKNS_12SliceArrayOfIlEERKNS_5SliceERKNS_7IndexOfIlEE' % short, [Ptr('ret', 0), this, sl, tail, adv])
     regs = [[z3.If(v < 0, v + L, v) for v in iv] for L in lens]
     inr = z3.And([z3.And(r >= 0, r < L) for rs, L in zip(regs, lens) for r in rs] + [z3.BoolVal(True)])
+    if cls == 'RegularArray' and not lens:
+        # a regular dimension has its size even when there are no rows (NumPy semantics)
+        inr = z3.And([z3.And(z3.If(v < 0, v + dims[0], v) >= 0, z3.If(v < 0, v + dims[0], v) < dims[0]) for v in iv] + [z3.BoolVal(True)])
     obls = [('raises exactly when some index is out of range for some list', z3.simplify(out.raised) != z3.Not(inr))]
     okp = z3.And(inr, z3.Not(out.raised))
     rp = nc.m.cell('ret', 0)
@@ -720,6 +729,8 @@ def h_getitem_next_array(cls, dims, nidx):
             exp = [[lst[v] for v in vals] for lst in inp]
         except IndexError:
             exp = None
+        if cls == 'RegularArray' and not inp and any(not (-dims[0] <= v < dims[0]) for v in vals):
+            exp = None          # NumPy: the indexes are checked against the size of the dimension even without rows
         kind, got = fullnative.akrun(prog)
         payload = dict(program=prog, native=[kind, got], expected=exp)
         if exp is None:
